@@ -1,7 +1,8 @@
 // io2coq reads package jen (current working tree, non-test files, build tag verif off),
 // type-checks it with go/types and prints coq/Gen/IO.v: the body of every render ENTRY POINT
 // as a list of events over the statement language of coq/Spec/IOShape.v - the premise of C10
-// at buffer level - and the result of a whole-package confinement scan (io_confinement).
+// at buffer level - and the results of two whole-package scans: the confinement scan
+// (io_confinement) and the scan for writes of File.NoFormat (io_noformat_writes).
 //
 // Entry points (discovered, not listed): every exported function or method of an exported type
 //   - with one or more parameters whose TYPE IMPLEMENTS io.Writer (io.Writer, io.WriteCloser,
@@ -70,19 +71,42 @@
 //	    fmt.Fprint*(w, ..)                                               KFprint
 //	    io.WriteString(w, ..), io.Copy(w, ..)                            KWriteString
 //	    recv.Entry(.., w, ..) with Entry an EWriter entry point, w at one of ITS writer
-//	    parameters, no other mention of a writer, nothing of rule 1 below  KDelegate, what = entry name
+//	    parameters, no other mention of a writer, nothing of rule 1 below, and the SAME OBJECTS
+//	    (strict; see below)                                              KDelegate, what = entry name
 //	    a function literal mentioning w                                  KStore
 //	    any other call                                                   KPass
 //	any call containing a call into package os or io/ioutil         EvWriteFile fn path data
 //	any call mentioning an object of rule 1 below (os.Stdout, fmt.Println, log.Printf ..)
 //	                                                                EvWriteFile "<object> (in: ..)" "" ""
 //	format.Source(b.Bytes())                                        EvFormat x b   (x the variable assigned)
-//	recv.Entry(b, ..) with Entry an EWriter entry point with ONE writer parameter, b a local bytes.Buffer
-//	                                                                EvRenderToBuffer entry b
+//	recv.Entry(b, ..) with Entry an EWriter entry point with ONE writer parameter, b a local bytes.Buffer,
+//	and the SAME OBJECTS (strict)                                   EvRenderToBuffer entry b
 //	fmt.Fprint*(b, ..), io.WriteString(b, ..), b.Write*(..), b a local bytes.Buffer   EvWriteLocal b
 //	a function or method of package jen, not an entry point, with exactly ONE parameter whose type
-//	implements io.Writer, which receives a local bytes.Buffer b      EvRender target b
+//	implements io.Writer, which receives a local bytes.Buffer b, and the SAME OBJECTS
+//	                                                                EvRender target b
 //	anything else                                                   EvOther "text"
+//
+// THE SAME OBJECTS (func ownObjects).  The table does not print receivers and arguments; the
+// theorems speak of ONE File f (whose NoFormat is the `noformat` of the run, whose Render is
+// what Save calls) and of one Statement / Group.  So a call becomes one of the three events
+// above only if it is about the objects the function being translated was called on:
+// the OBJECT TYPES of that function are the named types of package jen that its receiver and
+// parameters have (File and Statement for (*Statement).RenderWithFile(w, file)); wherever the
+// call has a receiver or an argument of such a type (or a pointer to it), or of an interface
+// type (a Code, an interface{}: it may hold any object), it must be an IDENTIFIER denoting the
+// function's own receiver or one of its parameters (go/types object identity) - in receiver
+// position the receiver, when the function has one; a literal nil and constants are let through.  Strict (delegation, entry called with a local buffer): the receiver of a
+// method call must be the function's own receiver whatever its type.  f.Render(buf) in Save,
+// s.render(file, buf, nil), Comment(c).render(f, source, nil), g.RenderWithFile(writer, NewFile(""))
+// in (*Group).Render (File is not an object type there) pass; NewFile("x").Render(buf),
+// other.render(file, buf, nil), s.render(NewFile("x"), buf, nil) are EvOther (KPass when they
+// mention the writer), which no checker accepts.  WHICH other code an EvRender runs
+// (Comment(c) ..) is not recorded: that is the hypothesis phase1_matches of the refinement theorems.
+// Object identity is value identity only if the receiver and the parameters are never assigned:
+// a function that assigns, increments, ranges into or takes the address of its receiver or of a
+// parameter (anywhere in its body, function literals included) gets `Do (EvOther ..)` as its
+// first statement (func reassigned).
 //
 // Every statement that fits no rule is Do (EvWriteCaller KStore|KOtherUse ..) when it mentions
 // a writer, Do (EvWriteFile ..) when it mentions package os or an object of rule 1, and
@@ -97,19 +121,46 @@
 // has to be excluded is a second road to the same writer or to the file system.  For the WHOLE
 // package (every non-test file: functions, methods, function literals, initialisers; so every
 // callee, transitively, whatever the dispatch):
-//  1. no reference to an object of packages os, io/ioutil, syscall, os/exec, os/signal, net,
-//     net/http, log, plugin, unsafe, reflect, runtime/debug, to fmt.Print*/Scan*, or to the
-//     builtins print/println - except inside the bodies of the EFileSys entry points, which
-//     are translated and checked as events;
+//  1. ALLOW-LIST: no import of, and no reference to an object (function, variable, type,
+//     constant, method, field) of, a package other than package jen itself and those of
+//     allowedPkgs: bytes, fmt, go/format, io, regexp, sort, strconv, strings, unicode,
+//     unicode/utf8 (what package jen imports today) and errors, math, math/bits, cmp, slices,
+//     maps, unicode/utf16 (pure computation); none to fmt.Print*/Scan* or to the builtins
+//     print/println; os and io/ioutil only inside the bodies of the EFileSys entry points, which
+//     are translated and checked as events.  An allow-list is the sound direction (log/slog,
+//     flag, testing, mime/multipart, expvar .. need no enumeration); its price: a future
+//     harmless use of a new package is an ALARM, fixed by adding the package to allowedPkgs
+//     after a look at what it can do.  The list is printed into the generated file;
 //  2. no package-level variable and no struct field whose type implements io.Writer, other
-//     than bytes.Buffer / strings.Builder (nowhere to leave a writer for later);
-//  3. no type assertion, type-switch case or conversion from a non-writer to a type that
-//     implements io.Writer, other than those two (a writer smuggled in as interface{}: Lit(w));
+//     than bytes.Buffer / strings.Builder (nowhere to leave a writer for later); and no
+//     package-level variable, struct field or PARAMETER OF AN EXPORTED FUNCTION whose type is
+//     (a pointer to, a slice of) an interface type with methods that is declared outside
+//     package jen, is not `error` and does not implement io.Writer (io.StringWriter, io.Closer,
+//     interface{ WriteString(string) (int, error) }: a sink of the caller that is not a writer
+//     parameter, so that the function would not be an entry point); the package has none;
+//  3. no type assertion, type-switch case or conversion to a type that implements io.Writer,
+//     other than those two (a writer smuggled in as interface{}: Lit(w)); none to a type
+//     parameter; none to ANY interface type that has methods (v.(io.StringWriter),
+//     v.(io.Closer), v.(interface{ WriteString(string) (int, error) }): the methods of the
+//     smuggled value without the word io.Writer), other than those of allowedIfaces - which is
+//     EMPTY: the unchanged package asserts and switches only to concrete types (*Group, token,
+//     Dict, string, rune, the numeric types ..) and converts to no interface type.  The
+//     allow-list and the targets found are printed into the generated file;
 //  4. no import "C", no //go:linkname.
 //
-// What remains ASSUMED: the standard library packages outside rule 1 (bytes, fmt.Fprint*/Sprint*,
-// go/format, io, sort, strconv, strings, unicode ..) do not touch the file system or a writer
-// they were not given.
+// NoFormat scan (same function; printed as io_noformat_writes, which Proofs/IOProofs.v requires to
+// be []).  The semantics takes f.NoFormat as a constant of the run, and `if r.NoFormat` is
+// EvCondNoFormat only for r the receiver.  So, rule 5, for the WHOLE package: nothing writes the
+// field that noFormatCond matches (a bool field NoFormat of a struct of package jen): no
+// assignment, compound assignment, ++/--, range assignment whose target selects it (through
+// whatever path: f.NoFormat, other.NoFormat, a copy, an embedding struct), no `&x.NoFormat`,
+// and no assignment whose target is a whole value that holds such a struct (`*f = File{..}`,
+// `files[0] = g`; a variable declared by the statement itself is not a target).  The field is
+// set by the user of the library only.  (A composite literal File{NoFormat: true} makes a NEW
+// File; rendering that one instead of the receiver is what THE SAME OBJECTS excludes.)
+//
+// What remains ASSUMED: the standard library packages of allowedPkgs (fmt.Print*/Scan* excepted)
+// do not touch the file system or a writer they were not given.
 package main
 
 import (
@@ -126,6 +177,7 @@ import (
 	"os"
 	"path/filepath"
 	"sort"
+	"strconv"
 	"strings"
 
 	"veriftools/coqfmt"
@@ -277,12 +329,43 @@ func osCall(n ast.Node) *ast.CallExpr {
 	return found
 }
 
-// the outside world, besides calls into os and io/ioutil
-var deniedPkgs = map[string]bool{"os": true, "io/ioutil": true, "syscall": true, "os/exec": true, "os/signal": true,
-	"net": true, "net/http": true, "log": true, "plugin": true, "unsafe": true, "reflect": true, "runtime/debug": true}
+// allowedPkgs: the packages whose objects package jen may reference anywhere (rule 1 of the
+// confinement scan is an ALLOW-list): what it imports today, plus a few packages that only
+// compute on their arguments.  They are ASSUMED not to touch the file system, standard
+// output or any writer they were not given (fmt.Print*/Scan* are excepted below).  The list is
+// printed into the generated file.
+var allowedPkgs = map[string]bool{
+	// imported by package jen at the commit this was written against
+	"bytes": true, "fmt": true, "go/format": true, "io": true, "regexp": true, "sort": true,
+	"strconv": true, "strings": true, "unicode": true, "unicode/utf8": true,
+	// pure computation
+	"errors": true, "math": true, "math/bits": true, "cmp": true, "slices": true, "maps": true, "unicode/utf16": true,
+}
 
-// refOutside: id names something through which code reaches the outside world without being
-// handed a writer: an object of a denied package, fmt.Print*, the builtins print and println.
+// fsPkgs: referenced only inside the bodies of the EFileSys entry points (File.Save), where
+// every statement is translated into an event and checked.
+var fsPkgs = map[string]bool{"os": true, "io/ioutil": true}
+
+// commentSafe: s, made fit for the inside of a Coq comment (no comment brackets, no quotes)
+func commentSafe(s string) string {
+	s = strings.ReplaceAll(s, "*", "* ")
+	s = strings.ReplaceAll(s, "(", "( ")
+	return strings.ReplaceAll(s, "\"", "'")
+}
+
+func sortedKeys(m map[string]bool) []string {
+	var ks []string
+	for k := range m {
+		ks = append(ks, k)
+	}
+	sort.Strings(ks)
+	return ks
+}
+
+// refOutside: id names something through which code might reach the outside world without
+// being handed a writer: an object (function, variable, type, constant, method, field) of a
+// package other than jen that is not on the allow-list, fmt.Print*/Scan*, the builtins print
+// and println.  Returns a description, "" when id is harmless.
 func refOutside(id *ast.Ident) string {
 	obj := info.Uses[id]
 	if obj == nil {
@@ -291,11 +374,15 @@ func refOutside(id *ast.Ident) string {
 	if b, ok := obj.(*types.Builtin); ok && (b.Name() == "print" || b.Name() == "println") {
 		return b.Name()
 	}
-	if obj.Pkg() == nil {
+	if _, ok := obj.(*types.PkgName); ok {
+		// the qualifier of a qualified identifier: the object selected is examined on its own
 		return ""
 	}
-	if deniedPkgs[obj.Pkg().Path()] {
-		return obj.Pkg().Name() + "." + obj.Name()
+	if obj.Pkg() == nil || obj.Pkg() == pkg {
+		return ""
+	}
+	if p := obj.Pkg().Path(); !allowedPkgs[p] {
+		return obj.Pkg().Name() + "." + obj.Name() + " (package " + p + ")"
 	}
 	if fn, ok := obj.(*types.Func); ok && obj.Pkg().Path() == "fmt" {
 		if sig := fn.Type().(*types.Signature); sig.Recv() == nil {
@@ -333,34 +420,76 @@ func isScratch(t types.Type) bool {
 	return q == "bytes.Buffer" || q == "strings.Builder"
 }
 
-// confinement checks the claim the event semantics makes about EvRender / EvWriteLocal / EvOther
-// (code of package jen that is not an entry point never touches the caller's writer or the file
-// system).  The caller's writer w itself cannot reach such code: every mention of w in an entry
-// point is an EvWriteCaller event and only w.Write(x) and the delegation to another checked
-// entry point are accepted.  What is left is reaching the same writer, or the file system, by
-// another road; so, for the WHOLE package (every non-test file, every function, method and
-// function literal, initialisers of package-level variables included, the bodies of the
-// EFileSys entry points excepted for rule 1):
-//  1. no reference to an object of packages os, io/ioutil, syscall, os/exec, os/signal, net,
-//     net/http, log, plugin, unsafe, reflect, runtime/debug; no fmt.Print*/Scan*; no print/println;
-//  2. no package-level variable and no struct field whose type implements io.Writer, other
-//     than bytes.Buffer / strings.Builder (a place where a writer could be left for later);
-//  3. no type assertion, type-switch case or conversion to a type that implements io.Writer
-//     other than those two (a writer smuggled in as an interface{} value, e.g. Lit(w));
-//  4. no cgo (import "C"), no //go:linkname.
-//
-// Returns the violations found (printed as io_confinement; Proofs/IOProofs.v wants []).
-func confinement(files []*ast.File, fsEntries map[*ast.FuncDecl]bool) []string {
-	var out []string
-	add := func(pos token.Pos, format string, a ...interface{}) {
+// allowedIfaces: the interface types WITH methods that package jen may assert, switch or
+// convert to (rule 3): exactly those the package contained when this was written.  Through
+// such a type code can call methods of a value it was given as interface{} (Lit(v), a
+// Dict key ..): io.StringWriter, io.Closer, interface{ WriteString(string) (int, error) } would
+// reach the caller's writer although nothing of type io.Writer is mentioned.  Printed into the
+// generated file.
+var allowedIfaces = map[string]bool{}
+
+// targets seen by rule 3 (distinct, printed into the generated file)
+var seenTargets = map[string]bool{}
+
+// targetProblem: why a type must not be the target of a type assertion, a type-switch case or
+// a conversion ("" when it may): it implements io.Writer (bytes.Buffer and strings.Builder
+// excepted), it is a type parameter, or it is an interface type that has methods and is not on
+// the allow-list.  A type without methods (interface{}, any) gives access to nothing.
+func targetProblem(t types.Type) string {
+	seenTargets[types.TypeString(t, types.RelativeTo(pkg))] = true
+	if isWriter(t) && !isScratch(t) {
+		return "writer type"
+	}
+	if _, ok := t.(*types.TypeParam); ok {
+		return "type parameter"
+	}
+	if it, ok := t.Underlying().(*types.Interface); ok {
+		if it.NumMethods() == 0 && it.NumEmbeddeds() == 0 {
+			return ""
+		}
+		if allowedIfaces[types.TypeString(t, types.RelativeTo(pkg))] {
+			return ""
+		}
+		return "interface type with methods (not on the allow-list)"
+	}
+	return ""
+}
+
+// confinement runs the two whole-package scans described in the header: rules 1-4 (what would let
+// code of package jen that is not an entry point reach the caller's writer or the file system by
+// a second road; `out`, printed as io_confinement) and rule 5 (places where package jen writes
+// File.NoFormat; `nofmt`, printed as io_noformat_writes).  Every non-test file, every function,
+// method and function literal, initialisers of package-level variables included; the bodies of
+// the EFileSys entry points may reference os and io/ioutil.  Proofs/IOProofs.v wants both [].
+func confinement(files []*ast.File, fsEntries map[*ast.FuncDecl]bool) (out, nofmt []string) {
+	where := func(pos token.Pos) string {
 		p := fset.Position(pos)
-		out = append(out, fmt.Sprintf("%s:%d: ", filepath.Base(p.Filename), p.Line)+fmt.Sprintf(format, a...))
+		return fmt.Sprintf("%s:%d: ", filepath.Base(p.Filename), p.Line)
+	}
+	add := func(pos token.Pos, format string, a ...interface{}) {
+		out = append(out, where(pos)+fmt.Sprintf(format, a...))
+	}
+	// rule 5: e is written to (what: "assignment to", "inc/dec of", ..)
+	target := func(e ast.Expr, what string) {
+		e = unparen(e)
+		if isNoFormatSel(e) {
+			nofmt = append(nofmt, where(e.Pos())+what+" "+text(e))
+			return
+		}
+		if id, ok := e.(*ast.Ident); ok && (id.Name == "_" || info.Defs[id] != nil) {
+			return // blank, or a variable declared by this very statement
+		}
+		if tv, ok := info.Types[e]; ok && containsNoFormat(tv.Type) {
+			nofmt = append(nofmt, where(e.Pos())+what+" "+text(e)+" (a whole "+types.TypeString(tv.Type, types.RelativeTo(pkg))+")")
+		}
 	}
 	badWriterType := func(t types.Type) bool { return isWriter(t) && !isScratch(t) }
 	for _, f := range files {
 		for _, im := range f.Imports {
 			if im.Path.Value == `"C"` {
 				add(im.Pos(), "import \"C\"")
+			} else if p, err := strconv.Unquote(im.Path.Value); err != nil || (!allowedPkgs[p] && !fsPkgs[p]) {
+				add(im.Pos(), "import of %s (not on the allow-list)", im.Path.Value)
 			}
 		}
 		for _, cg := range f.Comments {
@@ -376,11 +505,16 @@ func confinement(files []*ast.File, fsEntries map[*ast.FuncDecl]bool) []string {
 			ast.Inspect(d, func(x ast.Node) bool {
 				switch x := x.(type) {
 				case *ast.Ident:
-					if r := refOutside(x); r != "" && !skipRule1 {
-						add(x.Pos(), "reference to %s", r)
+					if r := refOutside(x); r != "" {
+						// the bodies of the EFileSys entry points may use os and io/ioutil (and nothing else)
+						if o := info.Uses[x]; !(skipRule1 && o != nil && o.Pkg() != nil && fsPkgs[o.Pkg().Path()]) {
+							add(x.Pos(), "reference to %s", r)
+						}
 					}
 					if v, ok := info.Defs[x].(*types.Var); ok && v.Pkg() == pkg && (v.IsField() || v.Parent() == pkg.Scope()) && badWriterType(v.Type()) {
 						add(x.Pos(), "%s of writer type %s", x.Name, types.TypeString(v.Type(), types.RelativeTo(pkg)))
+					} else if ok && v.Pkg() == pkg && (v.IsField() || v.Parent() == pkg.Scope() || exportedParams[v]) && foreignIface(v.Type()) {
+						add(x.Pos(), "%s of foreign interface type %s", x.Name, types.TypeString(v.Type(), types.RelativeTo(pkg)))
 					}
 				case *ast.Field:
 					// embedded fields have no name
@@ -391,22 +525,47 @@ func confinement(files []*ast.File, fsEntries map[*ast.FuncDecl]bool) []string {
 							}
 						}
 					}
+				case *ast.AssignStmt:
+					for _, l := range x.Lhs {
+						target(l, "assignment to")
+					}
+				case *ast.IncDecStmt:
+					target(x.X, "inc/dec of")
+				case *ast.RangeStmt:
+					if x.Tok == token.ASSIGN {
+						for _, l := range []ast.Expr{x.Key, x.Value} {
+							if l != nil {
+								target(l, "range assignment to")
+							}
+						}
+					}
+				case *ast.UnaryExpr:
+					if x.Op == token.AND && isNoFormatSel(unparen(x.X)) {
+						nofmt = append(nofmt, where(x.Pos())+"address of "+text(x.X))
+					}
 				case *ast.TypeAssertExpr:
 					if x.Type != nil {
-						if tv, ok := info.Types[x.Type]; ok && badWriterType(tv.Type) {
-							add(x.Pos(), "type assertion to writer type %s", text(x.Type))
+						if tv, ok := info.Types[x.Type]; ok {
+							if why := targetProblem(tv.Type); why != "" {
+								add(x.Pos(), "type assertion to %s %s", why, text(x.Type))
+							}
 						}
 					}
 				case *ast.CaseClause:
 					for _, e := range x.List {
-						if tv, ok := info.Types[e]; ok && tv.IsType() && badWriterType(tv.Type) {
-							add(e.Pos(), "type-switch case on writer type %s", text(e))
+						if tv, ok := info.Types[e]; ok && tv.IsType() {
+							if why := targetProblem(tv.Type); why != "" {
+								add(e.Pos(), "type-switch case on %s %s", why, text(e))
+							}
 						}
 					}
 				case *ast.CallExpr:
-					if tv, ok := info.Types[x.Fun]; ok && tv.IsType() && badWriterType(tv.Type) && len(x.Args) == 1 {
-						if at, ok := info.Types[x.Args[0]]; ok && !isWriter(at.Type) {
-							add(x.Pos(), "conversion to writer type %s", text(x.Fun))
+					if tv, ok := info.Types[x.Fun]; ok && tv.IsType() && len(x.Args) == 1 {
+						if at, ok := info.Types[x.Args[0]]; ok {
+							// a conversion between two writer types recovers nothing (the operand is a writer already)
+							if why := targetProblem(tv.Type); why != "" && !(why == "writer type" && isWriter(at.Type)) {
+								add(x.Pos(), "conversion to %s %s", why, text(x.Fun))
+							}
 						}
 					}
 				}
@@ -414,7 +573,68 @@ func confinement(files []*ast.File, fsEntries map[*ast.FuncDecl]bool) []string {
 			})
 		}
 	}
-	return out
+	return out, nofmt
+}
+
+// exportedParams: the parameters of the exported functions and methods (of exported types) of
+// package jen: where a resource of the caller enters the package.
+var exportedParams = map[*types.Var]bool{}
+
+// foreignIface: t is (a pointer to, a slice of) an interface type that has methods, is not
+// declared in package jen, is not `error`, and does not implement io.Writer (those are the
+// tracked writers): io.StringWriter, io.Closer, interface{ WriteString(string) (int, error) }:
+// a sink of the caller that the entry-point discovery does not see.
+func foreignIface(t types.Type) bool {
+	switch u := t.(type) {
+	case *types.Pointer:
+		return foreignIface(u.Elem())
+	case *types.Slice:
+		return foreignIface(u.Elem())
+	case *types.Array:
+		return foreignIface(u.Elem())
+	}
+	it, ok := t.Underlying().(*types.Interface)
+	if !ok || it.NumMethods() == 0 || isWriter(t) {
+		return false
+	}
+	if n, ok := t.(*types.Named); ok && (n.Obj().Pkg() == pkg || (n.Obj().Pkg() == nil && n.Obj().Name() == "error")) {
+		return false
+	}
+	return true
+}
+
+// isNoFormatField: the field that `if r.NoFormat` reads (see noFormatCond): a bool field called
+// NoFormat of a struct type of package jen (File.NoFormat).
+func isNoFormatField(obj types.Object) bool {
+	fld, isVar := obj.(*types.Var)
+	if !isVar || !fld.IsField() || fld.Pkg() != pkg || fld.Name() != "NoFormat" {
+		return false
+	}
+	b, isBasic := fld.Type().Underlying().(*types.Basic)
+	return isBasic && b.Kind() == types.Bool
+}
+
+// isNoFormatSel: e is a selector expression x.NoFormat that selects that field (whatever x is:
+// the receiver, another *File, a copy, a struct that embeds a File).
+func isNoFormatSel(e ast.Expr) bool {
+	sel, ok := unparen(e).(*ast.SelectorExpr)
+	return ok && isNoFormatField(info.Uses[sel.Sel])
+}
+
+// containsNoFormat: a value of type t holds (by value: directly, in a field, in an array
+// element) a struct with that field, so that assigning a whole t overwrites it.
+func containsNoFormat(t types.Type) bool {
+	switch u := t.Underlying().(type) {
+	case *types.Struct:
+		for i := 0; i < u.NumFields(); i++ {
+			if isNoFormatField(u.Field(i)) || containsNoFormat(u.Field(i).Type()) {
+				return true
+			}
+		}
+	case *types.Array:
+		return containsNoFormat(u.Elem())
+	}
+	return false
 }
 
 // struct fields (to tell an embedded struct field from an unnamed parameter)
@@ -434,22 +654,161 @@ func collectStructFields(files []*ast.File) {
 }
 
 type translator struct {
-	ws    map[types.Object]bool // the caller's writers: every parameter whose type implements io.Writer
-	recv  types.Object          // the receiver variable (nil for a function)
-	names map[types.Object]string
-	taken map[string]types.Object
+	ws      map[types.Object]bool // the caller's writers: every parameter whose type implements io.Writer
+	recv    types.Object          // the receiver variable (nil for a function)
+	params  map[types.Object]bool // the parameters
+	tracked map[*types.TypeName]bool
+	names   map[types.Object]string
+	taken   map[string]types.Object
 }
 
 func newTranslator(sig *types.Signature) *translator {
-	t := &translator{ws: map[types.Object]bool{}, names: map[types.Object]string{}, taken: map[string]types.Object{}}
+	t := &translator{ws: map[types.Object]bool{}, params: map[types.Object]bool{}, tracked: map[*types.TypeName]bool{},
+		names: map[types.Object]string{}, taken: map[string]types.Object{}}
 	if sig.Recv() != nil {
 		t.recv = sig.Recv()
 		t.nameOf(sig.Recv())
+		if b := jenBase(sig.Recv().Type()); b != nil {
+			t.tracked[b] = true
+		}
 	}
 	for i := 0; i < sig.Params().Len(); i++ {
 		t.nameOf(sig.Params().At(i))
+		t.params[sig.Params().At(i)] = true
+		if b := jenBase(sig.Params().At(i).Type()); b != nil {
+			t.tracked[b] = true
+		}
 	}
 	return t
+}
+
+// jenBase: t is T or *T with T a named type of package jen (File, Statement, Group, Code ..);
+// returns T's name object, nil otherwise.
+func jenBase(t types.Type) *types.TypeName {
+	if t == nil {
+		return nil
+	}
+	if p, ok := t.(*types.Pointer); ok {
+		t = p.Elem()
+	}
+	if n, ok := t.(*types.Named); ok && n.Obj().Pkg() == pkg {
+		return n.Obj()
+	}
+	return nil
+}
+
+// ownIdent: e is an identifier that denotes the receiver of the function being translated or
+// one of its parameters (go/types object identity; neither is ever assigned, see reassigned).
+// In receiver position of a call, when the function has a receiver, only the receiver will do.
+func (t *translator) ownIdent(e ast.Expr, recvPos bool) bool {
+	id, ok := unparen(e).(*ast.Ident)
+	if !ok {
+		return false
+	}
+	o := info.Uses[id]
+	if o == nil {
+		return false
+	}
+	if recvPos && t.recv != nil {
+		return o == t.recv
+	}
+	return o == t.recv || t.params[o]
+}
+
+// ownObjects: the call c is about the SAME objects as the function being translated.  The
+// OBJECT TYPES of that function are the named types of package jen that its receiver and its
+// parameters have (File and Statement for (*Statement).RenderWithFile(w, file)).  Wherever the
+// call has a receiver or an argument of such a type (or a pointer to it) or of an INTERFACE type
+// (a Code, an interface{}: it may hold any object), that receiver or argument must be an
+// identifier denoting the function's own receiver or parameter - in receiver position the
+// receiver, when there is one; a literal nil and constants are let through.  With
+// strictRecv (delegation, entry called with a local buffer) the receiver of a method call must
+// be the function's own receiver whatever its type.  So f.Render(buf) in (*File).Save,
+// s.render(file, buf, nil) and Comment(c).render(f, source, nil) pass;
+// NewFile("x").Render(buf), other.render(file, buf, nil), s.render(NewFile("x"), buf, nil) do not.
+func (t *translator) ownObjects(c *ast.CallExpr, strictRecv bool) bool {
+	fn := callee(c)
+	if fn == nil {
+		return false
+	}
+	isTracked := func(e ast.Expr) bool {
+		tv, ok := info.Types[e]
+		if !ok {
+			return true
+		}
+		if tv.IsNil() || tv.Value != nil {
+			return false // nil, a constant
+		}
+		if types.IsInterface(tv.Type) {
+			return true // a Code, an interface{}: may hold any object
+		}
+		b := jenBase(tv.Type)
+		return b != nil && t.tracked[b]
+	}
+	if sig, ok := fn.Type().(*types.Signature); ok && sig.Recv() != nil {
+		sel, ok := unparen(c.Fun).(*ast.SelectorExpr)
+		if !ok {
+			return false
+		}
+		if tv, ok := info.Types[sel.X]; ok && tv.IsType() {
+			return false // method expression T.m(x, ..)
+		}
+		if (strictRecv || isTracked(sel.X)) && !t.ownIdent(sel.X, true) {
+			return false
+		}
+	}
+	for _, a := range c.Args {
+		if isNilIdent(a) || t.isW(a) {
+			continue
+		}
+		if isTracked(a) && !t.ownIdent(a, false) {
+			return false
+		}
+	}
+	return true
+}
+
+// reassigned: somewhere in body (function literals included) the receiver or a parameter of
+// the function is assigned, incremented, ranged into, or has its address taken; returns the
+// first such place as text ("" when none).  Identity of objects (ownIdent, noFormatCond) means
+// identity of VALUES only as long as this never happens.
+func (t *translator) reassigned(body *ast.BlockStmt) string {
+	found := ""
+	mine := func(e ast.Expr) bool {
+		id, ok := unparen(e).(*ast.Ident)
+		if !ok {
+			return false
+		}
+		o := info.Uses[id]
+		return o != nil && (o == t.recv || t.params[o])
+	}
+	ast.Inspect(body, func(x ast.Node) bool {
+		if found != "" {
+			return false
+		}
+		switch x := x.(type) {
+		case *ast.AssignStmt:
+			for _, l := range x.Lhs {
+				if mine(l) {
+					found = text(x)
+				}
+			}
+		case *ast.IncDecStmt:
+			if mine(x.X) {
+				found = text(x)
+			}
+		case *ast.RangeStmt:
+			if x.Tok == token.ASSIGN && ((x.Key != nil && mine(x.Key)) || (x.Value != nil && mine(x.Value))) {
+				found = "for " + text(x.Key) + " .. = range " + text(x.X)
+			}
+		case *ast.UnaryExpr:
+			if x.Op == token.AND && mine(x.X) {
+				found = text(x)
+			}
+		}
+		return true
+	})
+	return found
 }
 
 // nameOf: the name under which a local object appears in the table: its own name, or - when
@@ -604,7 +963,7 @@ func (t *translator) classify(c *ast.CallExpr, dst string) string {
 						only = false
 					}
 				}
-				if n == 1 && only && osRef(c) == "" {
+				if n == 1 && only && osRef(c) == "" && t.ownObjects(c, true) {
 					return wk("KDelegate", ref.name, "")
 				}
 			}
@@ -643,7 +1002,7 @@ func (t *translator) classify(c *ast.CallExpr, dst string) string {
 	}
 	if fn := callee(c); fn != nil {
 		if ref, ok := writerEntries[fn]; ok && ref.exported && len(ref.widx) == 1 && ref.widx[0] < len(c.Args) {
-			if b, ok := t.localBuf(c.Args[ref.widx[0]]); ok {
+			if b, ok := t.localBuf(c.Args[ref.widx[0]]); ok && t.ownObjects(c, true) {
 				return fmt.Sprintf("EvRenderToBuffer %s %s", coqfmt.Str(ref.name), coqfmt.Str(b))
 			}
 		}
@@ -679,7 +1038,7 @@ func (t *translator) classify(c *ast.CallExpr, dst string) string {
 					}
 				}
 				if len(ws) == 1 && ws[0] < len(c.Args) && !(sig.Variadic() && ws[0] == sig.Params().Len()-1) {
-					if b, ok := t.localBuf(c.Args[ws[0]]); ok {
+					if b, ok := t.localBuf(c.Args[ws[0]]); ok && t.ownObjects(c, false) {
 						return fmt.Sprintf("EvRender %s %s", coqfmt.Str(text(c.Fun)), coqfmt.Str(b))
 					}
 				}
@@ -858,14 +1217,10 @@ func (t *translator) noFormatCond(cond ast.Expr) (neg, ok bool) {
 		cond = unparen(u.X)
 	}
 	sel, isSel := cond.(*ast.SelectorExpr)
-	if !isSel || sel.Sel.Name != "NoFormat" {
+	if !isSel {
 		return false, false
 	}
-	fld, isVar := info.Uses[sel.Sel].(*types.Var)
-	if !isVar || !fld.IsField() || fld.Pkg() != pkg {
-		return false, false
-	}
-	if b, isBasic := fld.Type().Underlying().(*types.Basic); !isBasic || b.Kind() != types.Bool {
+	if !isNoFormatField(info.Uses[sel.Sel]) {
 		return false, false
 	}
 	id, isId := unparen(sel.X).(*ast.Ident)
@@ -1089,6 +1444,16 @@ func (t *translator) stmts(list []ast.Stmt, indent string) []string {
 	return out
 }
 
+// body: the events of an entry's body; preceded by an EvOther (which no checker accepts) when the
+// function assigns its own receiver or a parameter.
+func (t *translator) body(fd *ast.FuncDecl) []string {
+	out := t.stmts(fd.Body.List, "    ")
+	if r := t.reassigned(fd.Body); r != "" {
+		out = append([]string{"Do (EvOther " + coqfmt.Str("the receiver or a parameter is assigned or has its address taken: "+r) + ")"}, out...)
+	}
+	return out
+}
+
 // followingReturn: list[i+1] is `return err` on the same error variable: with the call before it,
 // `x, err := CALL; return err` is `if err != nil { return err }; return nil`.
 func (t *translator) followingReturn(list []ast.Stmt, i int, errObj types.Object) bool {
@@ -1243,6 +1608,11 @@ func main() {
 				}
 				if exportedEntry(fd) {
 					decls = append(decls, fd)
+					if sig, ok := info.Defs[fd.Name].Type().(*types.Signature); ok {
+						for i := 0; i < sig.Params().Len(); i++ {
+							exportedParams[sig.Params().At(i)] = true
+						}
+					}
 				}
 			}
 		}
@@ -1341,7 +1711,7 @@ func main() {
 			if !singleErr {
 				body = []string{"Do (EvOther " + coqfmt.Str("results are not a single unnamed error: "+text(fd.Type)) + ")"}
 			} else {
-				body = t.stmts(fd.Body.List, "    ")
+				body = t.body(fd)
 			}
 			kind := "EWriter"
 			if len(body) == 2 && strings.HasPrefix(body[0], "Try (EvWriteCaller KDelegate ") && body[1] == "EvReturnNil" {
@@ -1356,7 +1726,7 @@ func main() {
 			if !singleErr {
 				body = []string{"Do (EvOther " + coqfmt.Str("results are not a single unnamed error: "+text(fd.Type)) + ")"}
 			} else {
-				body = t.stmts(fd.Body.List, "    ")
+				body = t.body(fd)
 			}
 			entries = append(entries, entry{entryName(fd), "EFileSys", "", path, body})
 			continue
@@ -1376,7 +1746,7 @@ func main() {
 			return true
 		})
 	}
-	confined := confinement(files, fsEntries)
+	confined, nofmtWrites := confinement(files, fsEntries)
 
 	out := os.Stdout
 	fmt.Fprintf(out, "(* GENERATED by tools/cmd/io2coq from %s - do not edit *)\n", repo)
@@ -1400,6 +1770,18 @@ func main() {
 	for _, c := range confined {
 		cs = append(cs, coqfmt.Str(c))
 	}
-	fmt.Fprintf(out, "(* what would let code of package jen that is not an entry point reach the caller's writer or the\n   file system (see `confinement` in tools/cmd/io2coq/main.go); must be empty *)\nDefinition io_confinement : list str := %s.\n\n", coqfmt.List(cs, "  "))
+	fmt.Fprintf(out, "(* what would let code of package jen that is not an entry point reach the caller's writer or the\n   file system (see `confinement` in tools/cmd/io2coq/main.go); must be empty.\n")
+	fmt.Fprintf(out, "   Rule 1 is an allow-list: package jen may reference objects of\n     %s\n   (fmt.Print*/Scan* excepted) and, inside the bodies of the EFileSys entry points only, of\n     %s.\n", strings.Join(sortedKeys(allowedPkgs), ", "), strings.Join(sortedKeys(fsPkgs), ", "))
+	ifs := "none"
+	if len(allowedIfaces) > 0 {
+		ifs = commentSafe(strings.Join(sortedKeys(allowedIfaces), ", "))
+	}
+	fmt.Fprintf(out, "   Rule 3: interface types with methods that may be the target of a type assertion, type-switch\n   case or conversion: %s.  Targets found in this tree:\n     %s *)\n", ifs, commentSafe(strings.Join(sortedKeys(seenTargets), ", ")))
+	fmt.Fprintf(out, "Definition io_confinement : list str := %s.\n\n", coqfmt.List(cs, "  "))
+	var nf []string
+	for _, c := range nofmtWrites {
+		nf = append(nf, coqfmt.Str(c))
+	}
+	fmt.Fprintf(out, "(* places where package jen itself WRITES the field that `if f.NoFormat` reads (assignment, op=, ++/--,\n   address taken, a whole struct holding it assigned): the semantics treats f.NoFormat as a constant of\n   the run, set by the user only; must be empty *)\nDefinition io_noformat_writes : list str := %s.\n\n", coqfmt.List(nf, "  "))
 	fmt.Fprintf(out, "(* exported functions that have no caller resource and call an entry point (with a buffer of their own) *)\nDefinition io_notes : list (str * str) := %s.\n", coqfmt.List(ns, "  "))
 }
